@@ -62,9 +62,18 @@ class C03(RailsProp):
         if not faults:
             return world, records, fired
         sites = []
+        verdict_sites = []
         for (n, kind, name) in fired:
             site = "dialog" if kind == "dialog" else "retrieval-rail" if kind == "retrieval" else ("input-rail" if name.startswith("in") else "output-rail")
             sites.append(site)
+            # does the failing action record a rail verdict (`$allowed = execute ...`)?  A failure of such an action leaves its own
+            # (empty) result behind; any other failing action leaves the verdicts recorded before it in the hidden turn (F12a)
+            rl = None
+            if kind != "dialog" and kind != "retrieval" and name[:2] == "in" and name[2:].isdigit() and int(name[2:]) < len(sc["in_rails"]):
+                rl = sc["in_rails"][int(name[2:])]
+            elif kind != "dialog" and kind != "retrieval" and name[:3] == "out" and name[3:].isdigit() and int(name[3:]) < len(sc["out_rails"]):
+                rl = sc["out_rails"][int(name[3:])]
+            verdict_sites.append(bool(rl) and rl["kind"] in ("check", "shipped"))
             out.probe("fault_in_" + site.replace("-", "_") + ("_action" if site == "dialog" else ""))
         if len(fired) >= 2:
             out.probe("pair_faults")
@@ -129,7 +138,10 @@ class C03(RailsProp):
                 RR.check_c02(sc, rec, sub, cc, [])
                 for v in sub.violations:
                     when = "after-fault" if faulted_turns else "before-fault"
-                    out.violate("rails-inactive-%s" % when, "%s:%s:%s" % (cc, sitesig, _poison_kind(sc, rec, ev, v)),
+                    pk = _poison_kind(sc, rec, ev, v)
+                    if pk == "spurious-refusal" and verdict_sites and all(verdict_sites):
+                        pk = "spurious-refusal-after-verdict-action-failure"
+                    out.violate("rails-inactive-%s" % when, "%s:%s:%s" % (cc, sitesig, pk),
                                 "faults at action calls %r; %s" % (faults, v.narrative))
         for v in out.violations[n_viol0:]:
             v.pin = pin
